@@ -74,6 +74,22 @@ class FaultyRaw(io.FileIO):
             raise _oserror(cut[0], self._rel)
         return super().readinto(b)
 
+    def readall(self):
+        fs = self._fs
+        cut = fs.before("read", self._rel, -1)
+        if cut is not None and cut[0] != "crash":
+            raise _oserror(cut[0], self._rel)
+        return super().readall()
+
+    def read(self, size=-1):
+        if size is None or size < 0:
+            return self.readall()
+        fs = self._fs
+        cut = fs.before("read", self._rel, size)
+        if cut is not None and cut[0] != "crash":
+            raise _oserror(cut[0], self._rel)
+        return super().read(size)
+
     def close(self):
         if self.closed:
             return
@@ -178,8 +194,10 @@ class FsSeam:
             return ("crash", min(self.crash_at[1], n))
         f = self.faults.get(idx)
         if f is not None:
+            if len(f) > 2 and (f[2] != kind or f[3] != rel.split(":")[0]):
+                return None  # after an earlier fault the trace shifted: this is no longer the intended site
             self.fired.append([f[0], idx, kind, rel, f[1]])
-            return f
+            return f[:2]
         return None
 
 
